@@ -260,6 +260,7 @@ func main() {
 	tier := flag.String("tier", "quick", "quick|thorough")
 	seedF := flag.Int64("seed", -1, "seed (default: VERIF_SEED or 1)")
 	replay := flag.String("replay", "", "replay file")
+	raceOnly := flag.Bool("raceonly", false, "run only the stream-level scenarios (used by the -race build); no verdict")
 	flag.Parse()
 	if flag.NArg() < 1 {
 		fmt.Fprintln(os.Stderr, "usage: vh [-tier quick|thorough] [-seed N] [-replay file] <property>")
@@ -297,6 +298,15 @@ func main() {
 		return
 	}
 
+	if *raceOnly {
+		if p.Extra != nil {
+			p.Extra(col, rng, "quick")
+		}
+		fmt.Printf("raceonly: %d scenarios executed under the race detector\n", col.evaluations)
+		return
+	}
+	// race reports collected by ./check from the -race build (thorough tier)
+	addRaceReports(p, col)
 	// corpus first (minimised past failures), then generated cases
 	runCorpus(p, col, drv)
 	effTier := *tier
@@ -520,4 +530,28 @@ func writeEvidence(p *Property, col *Collector, proof proofInfo, tier string, se
 	os.MkdirAll(dir, 0o755)
 	b, _ := json.MarshalIndent(ev, "", " ")
 	os.WriteFile(filepath.Join(dir, p.ID+".json"), b, 0o644)
+}
+
+// addRaceReports turns the data races the -race build reported (parsed by ./check into .state/<id>.race.json)
+// into failures of the data-race clause; each is keyed by its pair of racing library frames.
+func addRaceReports(p *Property, col *Collector) {
+	b, err := os.ReadFile(filepath.Join(verifRoot(), ".state", p.ID+".race.json"))
+	if err != nil {
+		return
+	}
+	var rr struct {
+		Scenarios int            `json:"scenarios"`
+		Races     map[string]int `json:"races"`
+	}
+	if json.Unmarshal(b, &rr) != nil {
+		return
+	}
+	col.mu.Lock()
+	col.extraCounts["race-detector-scenarios"] = rr.Scenarios
+	col.mu.Unlock()
+	for k, n := range rr.Races {
+		col.AddScenario("race-detector", fmt.Sprintf("data race reported %d times: %s", n, k), true, false, true,
+			"the race detector reported a data race between "+k, "race:frames=["+k+"]", k, "")
+	}
+	os.Remove(filepath.Join(verifRoot(), ".state", p.ID+".race.json"))
 }
